@@ -40,7 +40,6 @@ func crashLine(captured string) string {
 	return ""
 }
 
-
 // runHarness starts one harness process with GOMAXPROCS=gmp and waits for it.
 func runHarness(bin string, gmp int, wall time.Duration, args ...string) procOut {
 	n := atomic.AddInt64(&procCounter, 1)
